@@ -13,6 +13,52 @@ WRITE_FMT = "core::fmt::Formatter::<'a>::write_fmt"
 FORMAT = "alloc::fmt::format"
 
 
+SIGN_CLASSES = {
+    # class: (value >= 0 ?, sign bit set ?)
+    "f64": {"negative": (False, True), "negative zero": (True, True), "positive zero": (True, False), "positive": (True, False)},
+    "fpdec::Decimal": {"negative": (False, True), "zero": (True, False), "positive": (True, False)},
+}
+
+
+class SignUnknown(Exception):
+    pass
+
+
+def sign_eval(t, a, cls):
+    """Evaluates a boolean / amount term over one IEEE (resp. decimal) sign
+    class of the amount `a`: booleans -> bool, amounts -> ('amt', sign bit)."""
+    ge0, sbit = cls
+    t = T.canon(t)
+    if t == a:
+        return ("amt", sbit)
+    h = t[0]
+    if h == "bool":
+        return t[1]
+    if h == "<=" and t[1][0] == "num" and t[1][1] == 0 and t[2] == a:
+        return ge0
+    if h == "<" and t[2][0] == "num" and t[2][1] == 0 and t[1] == a:
+        return not ge0
+    if h == "<" and t[1][0] == "num" and t[1][1] == 0 and t[2] == a:
+        return ge0 and not (sbit or cls == SIGN_CLASSES["f64"]["positive zero"] or cls == SIGN_CLASSES["fpdec::Decimal"]["zero"])
+    if h == "not":
+        return not sign_eval(t[1], a, cls)
+    if h in ("and", "or"):
+        x, y = sign_eval(t[1], a, cls), sign_eval(t[2], a, cls)
+        return (x and y) if h == "and" else (x or y)
+    if h == "neg":
+        v = sign_eval(t[1], a, cls)
+        if isinstance(v, tuple):
+            return ("amt", not v[1])
+    if h == "abs":
+        return ("amt", False)
+    if h == "app" and len(t[3]) == 1 and t[3][0] == a:
+        if t[1].endswith("::is_sign_negative") or t[1].endswith("::is_negative"):
+            return sbit
+        if t[1].endswith("::is_sign_positive") or t[1].endswith("::is_positive"):
+            return not sbit
+    raise SignUnknown(T.show(t))
+
+
 class FmtShape(Exception):
     pass
 
@@ -79,64 +125,73 @@ def quantity_fmt(ctx, config, U, amt):
     outs, b, ev = G.summarize(U, G.QTY + "fmt", set())
     where = b["span"]
     self_, form = S.P(0, "self"), S.P(1, "form")
-    a = S.amount(self_)
+    a = T.canon(S.amount(self_))
     u = S.unit(self_)
     E = T.canon(("==", S.app("Unit::symbol", u), ("str", "")))
-    from fractions import Fraction
-    N = T.canon(("<=", ("num", Fraction(0), amt), a))
     atoms = T.guard_atoms(outs)
     Pobs = [x for x in atoms if x[0] == "isvar" and x[2] == "Some" and x[1][0] == "app" and x[1][1] == PRECISION and x[1][3] == (form,)]
-    extra = [x for x in atoms if x not in (E, N) and x not in Pobs]
-    ok = E in atoms and len(Pobs) == 1 and not extra
+    sign_atoms = [x for x in atoms if x != E and x not in Pobs]
+    # every other guard atom must be a condition on the sign of the amount
+    bad = []
+    for x in sign_atoms:
+        try:
+            sign_eval(x, a, next(iter(SIGN_CLASSES[amt].values())))
+        except SignUnknown:
+            bad.append(x)
+    ok = E in atoms and len(Pobs) == 1 and not bad
     ctx.ob("qty-fmt-cases", config, ok,
-           "Quantity::fmt does not split exactly on {symbol empty, [amount >= 0,] precision given}: atoms %s" % [T.show(x) for x in atoms], where)
+           "Quantity::fmt does not split exactly on {symbol empty, sign of the amount, precision given}: atoms %s" % [T.show(x) for x in atoms], where)
     if not ok:
         return
     P = Pobs[0]
     ctx.sample({"function": G.QTY + "fmt", "cases": len(outs)})
-    for asg in T.assignments([E, N, P]):
-        sel = T.select(outs, asg)
-        case = "symbol %s, amount %s, precision %s" % ("empty" if asg[E] else "non-empty", ">= 0" if asg[N] else "< 0", "given" if asg[P] else "absent")
-        inst = "%s/%s" % (config, case)
-        if len(sel) != 1 or sel[0][0] != "val":
-            ctx.fail("qty-fmt", inst, "%d outcomes" % len(sel), where)
-            continue
-        t = T.canon(sel[0][1])
-        if asg[E]:
-            # unit-less: the amount's own Display with the caller's formatter
-            ok = t[0] == "app" and t[1] == DISPLAY_FMT and t[3] == (T.canon(a), form)
-            ctx.ob("qty-fmt", inst, ok, "unit-less value is formatted as %s, expected Display::fmt(amount, caller's formatter)" % T.show(t), where)
-            continue
-        # pad_integral(form, N, "", &format!(...))
-        ok = t[0] == "app" and t[1] == PAD_INTEGRAL and len(t[3]) == 4 and t[3][0] == form
-        if not ok:
-            ctx.fail("qty-fmt", inst, "not a single pad_integral call on the caller's formatter: " + T.show(t), where)
-            continue
-        _f, nn, prefix, s = t[3]
-        ctx.ob("qty-fmt-sign", inst, nn == N, "is_nonnegative flag is %s, expected `amount >= 0`" % T.show(nn), where)
-        ctx.ob("qty-fmt-prefix", inst, prefix == ("str", ""), "prefix is %s, expected the empty string" % T.show(prefix), where, nontrivial=False)
-        if not (s[0] == "app" and s[1] == FORMAT and len(s[3]) == 1):
-            ctx.fail("qty-fmt", inst, "the padded text is not a format! result: " + T.show(s), where)
-            continue
-        try:
-            pieces = abstract(s[3][0])
-        except FmtShape as e:
-            ctx.fail("qty-fmt", inst, str(e), where)
-            continue
-        if amt == "f64":
-            mag = a if asg[N] else ("neg", a)
-            mag_ok = lambda v: v == T.canon(mag)
-        else:
-            mag_ok = lambda v: v == T.canon(("abs", a))
-        prec = ("unwrap", T.canon(S.app(PRECISION, form))) if asg[P] else None
-        good = (len(pieces) == 3 and pieces[0][0] == "arg" and pieces[0][1] == "new_display" and mag_ok(pieces[0][2])
-                and pieces[0][3] == prec and pieces[0][4] == DEFAULT_OPTS
-                and pieces[1] == ("lit", " ")
-                and pieces[2][0] == "arg" and pieces[2][1] == "new_display" and pieces[2][2] == T.canon(u) and pieces[2][3] is None
-                and pieces[2][4] == DEFAULT_OPTS)
-        ctx.ob("qty-fmt", inst, good,
-               "text is %s; expected {|amount|%s} ' ' {unit} — magnitude without sign (the sign is contributed once by pad_integral), one space, the unit last, "
-               "precision forwarded exactly when given" % (show_pieces(pieces), ":.prec" if asg[P] else ""), where)
+    for cname, cls in SIGN_CLASSES[amt].items():
+        for e_val in (True, False):
+            for p_val in (True, False):
+                asg = {E: e_val, P: p_val}
+                for x in sign_atoms:
+                    asg[x] = sign_eval(x, a, cls)
+                sel = T.select(outs, asg)
+                case = "symbol %s, amount %s, precision %s" % ("empty" if e_val else "non-empty", cname, "given" if p_val else "absent")
+                inst = "%s/%s" % (config, case)
+                if len(sel) != 1 or sel[0][0] != "val":
+                    ctx.fail("qty-fmt", inst, "%d outcomes" % len(sel), where)
+                    continue
+                t = T.canon(sel[0][1])
+                if e_val:
+                    # unit-less: the amount's own Display with the caller's formatter
+                    ok = t[0] == "app" and t[1] == DISPLAY_FMT and t[3] == (a, form)
+                    ctx.ob("qty-fmt", inst, ok, "unit-less value is formatted as %s, expected Display::fmt(amount, caller's formatter)" % T.show(t), where)
+                    continue
+                ok = t[0] == "app" and t[1] == PAD_INTEGRAL and len(t[3]) == 4 and t[3][0] == form
+                if not ok:
+                    ctx.fail("qty-fmt", inst, "not a single pad_integral call on the caller's formatter: " + T.show(t), where)
+                    continue
+                _f, nn, prefix, s = t[3]
+                try:
+                    flag = sign_eval(nn, a, cls)
+                except SignUnknown as x:
+                    flag = None
+                ctx.ob("qty-fmt-sign", inst, flag is not None and (flag == (not cls[1]) or cname == "negative zero"),
+                       "is_nonnegative flag %s evaluates to %s for a %s amount" % (T.show(nn), flag, cname), where)
+                ctx.ob("qty-fmt-prefix", inst, prefix == ("str", ""), "prefix is %s, expected the empty string" % T.show(prefix), where, nontrivial=False)
+                if not (s[0] == "app" and s[1] == FORMAT and len(s[3]) == 1):
+                    ctx.fail("qty-fmt", inst, "the padded text is not a format! result: " + T.show(s), where)
+                    continue
+                try:
+                    pieces = abstract(s[3][0])
+                except FmtShape as e:
+                    ctx.fail("qty-fmt", inst, str(e), where)
+                    continue
+                prec = ("unwrap", T.canon(S.app(PRECISION, form))) if p_val else None
+                mag_ok = len(pieces) == 3 and pieces[0][0] == "arg" and pieces[0][2] in (a, T.canon(("neg", a)), T.canon(("abs", a)))
+                good = (mag_ok and pieces[0][1] == "new_display" and pieces[0][3] == prec and pieces[0][4] == DEFAULT_OPTS
+                        and pieces[1] == ("lit", " ")
+                        and pieces[2][0] == "arg" and pieces[2][1] == "new_display" and pieces[2][2] == T.canon(u) and pieces[2][3] is None
+                        and pieces[2][4] == DEFAULT_OPTS)
+                ctx.ob("qty-fmt", inst, good,
+                       "text is %s; expected {|amount|%s} ' ' {unit} — the amount (or its negation / absolute value), one space, the unit last, "
+                       "precision forwarded exactly when given" % (show_pieces(pieces), ":.prec" if p_val else ""), where)
 
 
 def width_per_character(ctx, config, w):
@@ -260,6 +315,50 @@ def forwarders(ctx, config, w):
     return n
 
 
+def single_sign(ctx, config, U, amt):
+    """`a single leading minus`: over every sign class of the amount the
+    magnitude handed to Display carries no sign of its own and pad_integral's
+    is_nonnegative flag is exactly `sign bit clear`."""
+    outs, b, _ = G.summarize(U, G.QTY + "fmt", set())
+    a = T.canon(S.amount(S.P(0, "self")))
+    where = b["span"]
+    for cname, cls in SIGN_CLASSES[amt].items():
+        inst = "%s/%s" % (config, cname)
+        done = 0
+        for (g, k, t) in outs:
+            if not (k == "val" and t[0] == "app" and t[1] == PAD_INTEGRAL and len(t[3]) == 4):
+                continue
+            try:
+                applicable = True
+                for at, pol in g:
+                    try:
+                        v = sign_eval(at, a, cls)
+                    except SignUnknown:
+                        continue   # atoms not about the sign (symbol empty, precision)
+                    if v != pol:
+                        applicable = False
+                        break
+                if not applicable:
+                    continue
+                flag = sign_eval(t[3][1], a, cls)
+                s_ = t[3][3]
+                pieces = abstract(s_[3][0]) if s_[0] == "app" and s_[1] == FORMAT else None
+                mag = sign_eval(pieces[0][2], a, cls) if pieces else None
+            except (SignUnknown, FmtShape) as e:
+                ctx.fail("single-sign", inst, "cannot evaluate the sign handling: %s" % e, where)
+                done += 1
+                continue
+            done += 1
+            ok = isinstance(mag, tuple) and mag[1] is False and flag == (not cls[1])
+            ctx.ob("single-sign", inst, ok,
+                   "for a %s amount the text handed to pad_integral %s and the is_nonnegative flag is %s: the value is shown with %s (e.g. format!(\"{:+}\", -0.0 m) = \"+-0 m\", "
+                   "{:08} = \"0000-0 m\")" % (cname, "starts with the amount's own minus sign" if isinstance(mag, tuple) and mag[1] else "is unsigned", flag,
+                                               "two signs / a misplaced sign under the '+' flag or zero padding" if isinstance(mag, tuple) and mag[1] and flag else "a wrong sign"),
+                   where)
+        if done == 0:
+            ctx.fail("single-sign", inst, "no formatting case applies to this sign class", where)
+
+
 def symbol_resolves(ctx, config, w):
     """`the symbol resolves to the stored unit`: the first unit in iteration
     order carrying a unit's symbol is that unit (lookup model of C09 evaluated on
@@ -301,6 +400,7 @@ def run(ctx):
         if config == "f64-all":
             width_per_character(ctx, config, w)
         quantity_fmt(ctx, config, w.U, amt)
+        single_sign(ctx, config, w.U, amt)
         unit_fmt(ctx, config, w.U)
         rate_fmt(ctx, config, w.U)
         n = forwarders(ctx, config, w)
